@@ -66,4 +66,5 @@ def main(n, seed0):
                         print("   ", json.dumps(x, ensure_ascii=False)[:1500])
     print("bad", bad, "of", n, kinds)
 
-main(int(sys.argv[1]), int(sys.argv[2]))
+if __name__ == "__main__":
+    main(int(sys.argv[1]), int(sys.argv[2]))
